@@ -87,10 +87,12 @@ ApplyFrom(t, s, i) ==
 
 -----------------------------------------------------------------------------
 DefaultIv == [r |-> Mk(3600), t |-> Mk(600), e |-> Mk(7200)]
+BlankAlt == [my |-> {}, needSess |-> TRUE, sess |-> 0, serial |-> "0", ack |-> None, lastOk |-> 0, iv |-> DefaultIv]
 Blank == [pc |-> "dead", ver |-> 1, firstPdu |-> TRUE, needSess |-> TRUE, sess |-> 0, serial |-> "0",
           iv |-> DefaultIv, mode |-> "min_max", my |-> {}, oth |-> {}, buf |-> <<>>, now |-> 0, lastOk |-> 0,
           ack |-> None, owed |-> None, alt |-> None, mayDown |-> FALSE, mirror |-> {}, expired |-> FALSE,
-          goodSince |-> 0, target |-> {}, converged |-> FALSE, lastq |-> None, kf |-> {}, fast |-> FALSE, back |-> "resp1"]
+          goodSince |-> 0, target |-> {}, converged |-> FALSE, lastq |-> None, kf |-> {}, fast |-> FALSE, back |-> "resp1",
+          afSeen |-> FALSE, afalts |-> {}, snap |-> BlankAlt]
 Res(c, b) == [c |-> c, bad |-> b]
 
 Expired(c, t) == c.lastOk # 0 /\ t - c.lastOk > c.iv.e.n
@@ -110,6 +112,30 @@ Resolve(c, e) ==
   ELSE IF e.e = "send" /\ e.t = "reset_query" /\ ~c.needSess
        THEN [c EXCEPT !.needSess = TRUE, !.ack = None, !.alt = None]
   ELSE IF e.e = "send" THEN [c EXCEPT !.alt = None] ELSE c
+
+(* ----- allocation failure (C18): once the harness has failed one allocation of the library (events carry af), the     *)
+(* exchange in progress may end in one of three ways whatever the envelope predicts: as predicted, with the state from  *)
+(* before the exchange (snap, taken at every query), or with the socket's records purged and a reset due.  The next      *)
+(* query, together with the table contents observed with it, tells which; anything else is a violation.                 *)
+AltOf(c) == [my |-> c.my, needSess |-> c.needSess, sess |-> c.sess, serial |-> c.serial, ack |-> c.ack, lastOk |-> c.lastOk, iv |-> c.iv]
+PurgedAlt(c) == [my |-> {}, needSess |-> TRUE, sess |-> c.sess, serial |-> "0", ack |-> None, lastOk |-> 0, iv |-> c.iv]
+AfEnter(c, e) == IF Has(e, "af") /\ ~c.afSeen /\ c.pc \notin {"dead", "stopped"}
+                 THEN [c EXCEPT !.afSeen = TRUE, !.afalts = {c.snap, PurgedAlt(c)}] ELSE c
+AfMatch(a, e) == /\ ToSet(e.my) = a.my
+                 /\ IF a.needSess THEN e.t = "reset_query" ELSE (e.t = "serial_query" /\ e.sess = a.sess /\ e.sn = a.serial)
+AfResolve(c, e) ==
+  IF c.afalts = {} THEN [c |-> c, bad |-> {}]
+  ELSE LET m == {a \in c.afalts \cup {AltOf(c)} : AfMatch(a, e)}
+       IN IF m = {} THEN [c |-> [c EXCEPT !.afalts = {}], bad |-> {"C18"}]
+          ELSE LET a == IF AltOf(c) \in m THEN AltOf(c) ELSE IF c.snap \in m THEN c.snap ELSE CHOOSE x \in m : TRUE
+               IN [c |-> [c EXCEPT !.my = a.my, !.needSess = a.needSess, !.sess = a.sess, !.serial = a.serial, !.ack = a.ack,
+                                   !.lastOk = a.lastOk, !.iv = a.iv, !.afalts = {}, !.alt = None], bad |-> {}]
+AfOpen(c, e) ==
+  IF c.afalts = {} THEN [c |-> c, bad |-> {}]
+  ELSE LET ex(a) == IF a.lastOk # 0 /\ e.now - a.lastOk > a.iv.e.n THEN [a EXCEPT !.my = {}, !.needSess = TRUE, !.serial = "0", !.ack = None, !.lastOk = 0] ELSE a
+           alts == {ex(a) : a \in c.afalts}
+       IN [c |-> [c EXCEPT !.afalts = alts],
+           bad |-> IF Has(e, "my") /\ ToSet(e.my) \notin {a.my : a \in alts \cup {ex(AltOf(c))}} THEN {"C18"} ELSE {}]
 
 Owe(codes, raw) == [codes |-> codes, raw |-> raw]
 Fail(c, codes, raw) == [c EXCEPT !.owed = Owe(codes, raw), !.pc = "reported", !.buf = <<>>,
@@ -148,7 +174,7 @@ HSend(c0, e) ==
            q == ExpectedQuery(c)
            down == c.mayDown /\ c.ver > 0 /\ e.v = c.ver - 1
            c1 == [c EXCEPT !.pc = "resp1", !.now = e.now, !.ver = IF down THEN e.v ELSE c.ver, !.mayDown = FALSE,
-                           !.lastq = q, !.owed = None, !.expired = FALSE]
+                           !.lastq = q, !.owed = None, !.expired = FALSE, !.snap = AltOf(c)]
        IN Res(c1, Chk({<<"ENV", c.pc \in {"query", "poll"}>>,
                        <<"C05", e.t = q.t>>,
                        <<"C05", (e.t = "serial_query" /\ q.t = "serial_query") => (e.sess = q.sess /\ e.sn = q.sn)>>,
@@ -312,5 +338,13 @@ Common(c, c2, e) ==
        <<"C08", (c2.goodSince # 0 /\ ~c2.converged) =>
                   c2.now - c2.goodSince <= Cap(c2.iv.r.n) + Cap(c2.iv.e.n) + 4 * Cap(c2.iv.t.n) + 240>>,
        <<"C13", c2.ver <= 1>>})
-StepResult(c, e) == LET r == Handle(c, e) IN [c |-> r.c, bad |-> r.bad \cup Common(c, r.c, e)]
+StepResult(c, e) ==
+  LET c0 == AfEnter(c, e)
+      pre == IF c0.afalts = {} THEN [c |-> c0, bad |-> {}]
+             ELSE IF e.e = "send" /\ e.t \in {"reset_query", "serial_query"} /\ c0.pc # "stopping" THEN AfResolve(c0, e)
+             ELSE IF e.e = "open" THEN AfOpen(c0, e)
+             ELSE IF e.e \in {"stop", "reset"} THEN [c |-> [c0 EXCEPT !.afalts = {}], bad |-> {}]
+             ELSE [c |-> c0, bad |-> {}]
+      r == Handle(pre.c, e)
+  IN [c |-> r.c, bad |-> pre.bad \cup r.bad \cup Common(c, r.c, e)]
 =============================================================================
